@@ -327,3 +327,44 @@ Proof.
         (conj (fun V T ps HT => initial_ideal_for _ _ _ T2 T4 V T ps HR HT)
               (initial_pr_for _ _ T5 T6))).
 Qed.
+
+(* ---------------------------------------------------------------- (re)initialisation of a phase (structures.cpp) *)
+(* A PHASES block that redefines an existing gas goes through phase_store -> phase_init on the EXISTING record.  Everything the
+   gas-pressure code caches in that record must be reset there: pr_si_f (= log10 phi, which calc_gas_pressures subtracts for
+   ideal gases too: see cg_p_soln), pr_phi, pr_p, pr_tk (so that alpha is recomputed), pr_a / pr_b (computed only when zero),
+   the critical constants themselves and the per-calculation values p_soln_x, moles_x, fraction_x. *)
+Definition pi_has (l : list (string * Q)) (f : string) (q : Q) : bool :=
+  existsb (fun p => andb (String.eqb (fst p) f) (Qeq_bool (snd p) q)) l.
+Definition reset_to_zero : list string :=
+  ["pr_si_f"; "pr_p"; "pr_tk"; "pr_a"; "pr_b"; "pr_alpha"; "pr_aa_sum2"; "t_c"; "p_c"; "omega"; "p_soln_x"; "moles_x"; "fraction_x"; "lk"; "in"]%string.
+Definition phase_reinit_ok (consts : list (string * Q)) (others : list (string * string))
+           (store_calls : list (list string * string)) (alloc_calls : nat) : bool :=
+  forallb (fun f => pi_has consts f 0) reset_to_zero && pi_has consts "pr_phi" 1 &&
+  existsb (fun p => andb (String.eqb (fst p) "pr_in") (String.eqb (snd p) "false")) others &&
+  existsb (fun c => String.eqb (snd c) "phase_init(phase_ptr)") store_calls && Nat.leb 1 alloc_calls.
+
+Lemma phase_reinit_sound : forall consts others sc ac, phase_reinit_ok consts others sc ac = true ->
+  (forall f, In f reset_to_zero -> exists q, In (f, q) consts /\ (q == 0)%Q) /\
+  (exists q, In ("pr_phi"%string, q) consts /\ (q == 1)%Q) /\ In ("pr_in"%string, "false"%string) others /\
+  (exists c, In (c, "phase_init(phase_ptr)"%string) sc) /\ (1 <= ac)%nat.
+Proof.
+  intros consts others sc ac H. unfold phase_reinit_ok in H.
+  apply andb_prop in H; destruct H as [H H5]. apply andb_prop in H; destruct H as [H H4].
+  apply andb_prop in H; destruct H as [H H3]. apply andb_prop in H; destruct H as [H H2].
+  assert (HAS : forall f q, pi_has consts f q = true -> exists q', In (f, q') consts /\ (q' == q)%Q).
+  { intros f q E. unfold pi_has in E. apply existsb_exists in E. destruct E as [[f' q'] [I E]]. simpl in E.
+    apply andb_prop in E. destruct E as [E1 E2]. apply String.eqb_eq in E1. apply Qeq_bool_iff in E2. subst f'.
+    exists q'. split; assumption. }
+  split; [| split; [| split; [| split]]].
+  - intros f I. rewrite forallb_forall in H. apply HAS. apply H. exact I.
+  - apply HAS. assumption.
+  - apply existsb_exists in H3; destruct H3 as [[a b] [I E]].
+    simpl in *. apply andb_prop in E. destruct E as [E1 E2]. apply String.eqb_eq in E1. apply String.eqb_eq in E2. subst. exact I.
+  - apply existsb_exists in H4; destruct H4 as [[a b] [I E]].
+    simpl in *. apply String.eqb_eq in E. subst. exists a. exact I.
+  - apply Nat.leb_le. assumption.
+Qed.
+
+Lemma phase_reinit_generated :
+  phase_reinit_ok phase_init_consts phase_init_others phase_store_reinit_calls phase_alloc_init_calls = true.
+Proof. vm_compute. reflexivity. Qed.
